@@ -327,6 +327,16 @@ Exec(db, op, ns, a) ==
          LET f == ReadDocs(db, ns, [q |-> a.q, sort |-> EmptyDoc, skip |-> 0, limit |-> 0, proj |-> Missing]) IN
          R([Res EXCEPT !.err = f.err, !.docs = f.list], db, <<>>)      \* judged with DistinctOK on res.vals by the trace spec
     [] op = "createIndex" -> CreateIndex(db, ns, a)
+    [] op = "createIndexes" ->           \* IndexView.CreateMany: one call, all of the indexes or none (C02)
+         LET Step[i \in 0..Len(a.specs)] ==
+               IF i = 0 THEN [ok |-> TRUE, db |-> db, names |-> <<>>]
+               ELSE LET prev == Step[i - 1] IN
+                    IF ~prev.ok THEN prev
+                    ELSE LET x == CreateIndex(prev.db, ns, a.specs[i]) IN
+                         IF x.res.err THEN [ok |-> FALSE, db |-> db, names |-> <<>>]
+                         ELSE [ok |-> TRUE, db |-> x.db, names |-> prev.names \o x.res.names]
+             f == Step[Len(a.specs)]
+         IN IF f.ok THEN R([Res EXCEPT !.names = f.names], f.db, <<>>) ELSE Failed(db)
     [] op = "dropIndex" ->
          IF ~Exists(db, ns) THEN Failed(db)
          ELSE IF a.name = "_id_" THEN Failed(db)                        \* C15: dropping indexes never removes the _id index
